@@ -152,6 +152,13 @@ def run(ctx):
             do(ctx, 'rot_dense', [be, g, mask, l, lay])
         ctx.res.count('layout_' + lay)
         ctx.res.count('N%d_masked%d' % (N, mask is not None))
+    # LONG lists: more rows / terms / pairs than any block, chunk or vector width (255, 256, 257, 300, 1025 rows; 65 x 65 and 40 x 130 term pairs)
+    for L in gen.LONG:
+        for be in backends:
+            N = rng.randint(1, 4)
+            n = rng.randint(1, N)
+            mask = None if n == N else gen.rmask(rng, N, n)[0]
+            do(ctx, 'rot_corr', [be, gen.rpauli(rng, n, herm=True, nonzero=True), mask, gen.rplist(rng, N, L)], nontrivial=('long', be, L))
     # LARGE registers: byte, word and cache-line boundaries of every packed or vectorised representation (8, 9, 16, 17, 33, 64, 65 qubits); model correspondence only
     for N in gen.BIG:
         for be in backends:
